@@ -32,7 +32,8 @@ ASSUMPTIONS = [
     "the termination claim can only be refuted, not established: the watchdog turns a > 120 s call into a violation",
 ]
 
-ALPHA = "\t\t\t\n: *$+-,;01259HSLCPEFGOUX#MIDNacgtxyZzABJf[]{}\"'.=_\r\x00\x7fé５²٣~!"
+ALPHA = "\t\t\t\n: *$+-,;01259HSLCPEFGOUX#MIDNacgtxyZzABJf[]{}\"'.=_\r\x00\x7fé５²٣~!\udcff"
+# (the last one is a lone surrogate: written to a file it becomes the byte 0xFF, i.e. a file that is not valid UTF-8)
 COLLECT = bool(os.environ.get("VERIF_C07_COLLECT"))
 
 
@@ -117,6 +118,8 @@ class Guard:
 def exercise_line(gd, l):
     gd.call("str(line)", str, l)
     gd.call("repr(line)", repr, l)
+    gd.call("line.to_str", l.to_str)
+    gd.call("line.to_list", l.to_list)
     gd.call("line.validate", l.validate)
     st_, names = gd.call("fieldnames", lambda: list(l.positional_fieldnames) + list(l.tagnames))
     if st_ == "ok":
@@ -490,10 +493,6 @@ def prop_cli(case):
     traceback, and the verdict is the one of Gfa.from_file(...).validate() in this process."""
     from .. import cli
     text = case["text"]
-    try:
-        text.encode("utf-8")
-    except UnicodeError:
-        return {"nt": False, "not_text": True}
     if not cli.available("gfapy-validate"):
         raise Violation("cli-missing", "bin/gfapy-validate not found under %s" % ROOT)
     try:
